@@ -627,8 +627,13 @@ pub fn run(scn: &C19Scn, stats: &mut RunStats) -> Option<Violation> {
                 // only changes at expiry instants: the end points plus the expiries in between are
                 // all the candidates there are.
                 let raw_cands = candidate_instants(t, &out);
-                let a = (*raw_cands.first().unwrap()).max(eff_lo);
-                let b = (*raw_cands.last().unwrap()).max(eff_hi);
+                // (a rebuild history starts from the untouched source every time: there the result
+                // depends on this run's instant alone, not on what earlier runs used)
+                let (a, b) = if scn.rebuild {
+                    (*raw_cands.first().unwrap(), *raw_cands.last().unwrap())
+                } else {
+                    ((*raw_cands.first().unwrap()).max(eff_lo), (*raw_cands.last().unwrap()).max(eff_hi))
+                };
                 let mut cands: Vec<(i64, i64)> = vec![a, b];
                 for e in expiries() {
                     if (e, 0) > a && (e, 0) < b {
